@@ -32,6 +32,8 @@ let parse_op tok =
 
 let parse_ops s = List.map parse_op (List.filter (fun t -> t <> "" && t <> "-") (String.split_on_char ' ' s))
 
+let () = Runtime_driver.parse_ops_hook := parse_ops
+
 let str_res = function
   | RId i -> "f" ^ string_of_int (int_of_nat i)
   | ROk -> "ok" | RCycle -> "cyc" | RPanic -> "P"
